@@ -37,11 +37,14 @@ items of equal value but different type exist (`1`, `1.0`, `1e0`) — integer-va
 `xs:double` (exact below 2^53; the fragment has no division) -/
 inductive Item where
   | int (n : Int) | bool (b : Bool) | fn (a : Nat) | dec (n : Int) | dbl (n : Int)
+  /-- `xs:string` (code points), and the special doubles NaN, ±INF, -0 (as literals, sort items and
+  sort keys: arithmetic and value comparison on them are outside the fragment) -/
+  | str (cs : List Nat) | nan | inf (pos : Bool) | negz
   deriving DecidableEq, Repr, Inhabited
 
 /-- atomic types of `instance of` -/
 inductive Ty where
-  | integer | decimal | double | boolean
+  | integer | decimal | double | boolean | string
   deriving DecidableEq, Repr, Inhabited
 
 /-- `item instance of xs:T` (xs:integer is derived from xs:decimal) -/
@@ -50,6 +53,10 @@ def Ty.has : Ty → Item → Bool
   | .decimal, .int _ => true
   | .decimal, .dec _ => true
   | .double, .dbl _ => true
+  | .double, .nan => true
+  | .double, .inf _ => true
+  | .double, .negz => true
+  | .string, .str _ => true
   | .boolean, .bool _ => true
   | _, _ => false
 
@@ -104,6 +111,7 @@ program (its syntax token), `call f args` dynamic call with `none` = the placeho
 `par e` = `(e)`. -/
 inductive Expr where
   | lit (n : Int) | dlit (n : Int) | elit (n : Int) | tt | ff | emp
+  | slit (cs : List Nat) | nanlit | inflit (pos : Bool) | negzlit
   | inst (t : Ty) (e : Expr)
   | var (x : Nat) | dot | posE | lastE
   | add (a b : Expr) | sub (a b : Expr) | mul (a b : Expr)
@@ -122,7 +130,7 @@ inductive Expr where
   | forEach (s f : Expr) | filter (s f : Expr)
   | foldL (s z f : Expr) | foldR (s z f : Expr)
   | pairs (s1 s2 f : Expr)
-  | sortK (s f : Expr)
+  | sortK (ci : Bool) (s f : Expr)
   | apply (f : Expr) (ms : List Expr)
   deriving Repr, Inhabited
 
@@ -190,6 +198,10 @@ def ebv : Seq → Except Err Bool
   | [] => .ok false
   | [.bool b] => .ok b
   | [.fn _] => .error .FORG0006
+  | [.str cs] => .ok (!cs.isEmpty)
+  | [.nan] => .ok false
+  | [.inf _] => .ok true
+  | [.negz] => .ok false
   | [x] => match numOf x with
     | some v => .ok (v.1 != 0)
     | none => .error .FORG0006
@@ -270,6 +282,9 @@ def convItem : ITy → Item → Except Err Item
   | .double, .int n => .ok (.dbl n)
   | .double, .dec n => .ok (.dbl n)
   | .double, .dbl n => .ok (.dbl n)
+  | .double, .nan => .ok .nan
+  | .double, .inf p => .ok (.inf p)
+  | .double, .negz => .ok .negz
   | .boolean, .bool b => .ok (.bool b)
   | _, _ => .error .XPTY0004
 
@@ -344,20 +359,50 @@ def keyLe : List Int → List Int → Bool
   | _ :: _, [] => false
   | a :: as, b :: bs => a < b || (a == b && keyLe as bs)
 
-/-- one key component as an integer: numerics `2·v`, booleans `2·b + 1` (false < true; the parity
-keeps the type, so that a boolean is never silently compared with a number) -/
-def keyAtom : Item → Except Err Int
-  | .bool b => .ok (if b then 3 else 1)
-  | .fn _ => .error .FOTY0013
-  | x => match numOf x with | some v => .ok (2 * v.1) | none => .error .XPTY0004
+/-- ASCII case folding of the collation `html-ascii-case-insensitive` -/
+def asciiLower (n : Nat) : Nat := if 65 ≤ n ∧ n ≤ 90 then n + 32 else n
 
-def keyOf (s : Seq) : Except Err (List Int) := s.mapM keyAtom
+/-- one key component as a self-delimiting list of integers whose lexicographic order is the order
+of the component: numerics `[0, class, value]` with class NaN 0 < -INF 1 < finite 2 < +INF 3
+(F&O `fn:sort`: NaN is less than every other value; `-0` = `0`), booleans `[1, b]` (false < true),
+strings `[2, c₁+1, …, cₙ+1, 0]` (code points, folded when the collation is case-insensitive; the
+terminator 0 makes a proper prefix smaller).  The first element is the type tag. -/
+def keyCode (ci : Bool) : Item → Except Err (List Int)
+  | .bool b => .ok [1, if b then 1 else 0]
+  | .fn _ => .error .FOTY0013
+  | .str cs => .ok (2 :: (cs.map fun c => ((if ci then asciiLower c else c : Nat) : Int) + 1) ++ [0])
+  | .nan => .ok [0, 0, 0]
+  | .inf false => .ok [0, 1, 0]
+  | .inf true => .ok [0, 3, 0]
+  | .negz => .ok [0, 2, 0]
+  | .int n => .ok [0, 2, n]
+  | .dec n => .ok [0, 2, n]
+  | .dbl n => .ok [0, 2, n]
+
+def keyOf (ci : Bool) (s : Seq) : Except Err (List Int) := (s.mapM (keyCode ci)).map List.flatten
+
+/-- rest of an encoded key after the terminator of a string component -/
+def dropStr : List Int → List Int
+  | [] => []
+  | 0 :: r => r
+  | _ :: r => dropStr r
+
+/-- the type tags of the components of an encoded key -/
+def shapeAux : Nat → List Int → List Int
+  | 0, _ => []
+  | _ + 1, [] => []
+  | f + 1, 0 :: _ :: _ :: r => 0 :: shapeAux f r
+  | f + 1, 1 :: _ :: r => 1 :: shapeAux f r
+  | f + 1, 2 :: r => 2 :: shapeAux f (dropStr r)
+  | _ + 1, _ => []
+
+def shapeOf (k : List Int) : List Int := shapeAux k.length k
 
 /-- the keys of one sort are comparable: at every position all keys that have that position hold the
-same type (xs:boolean or numeric); `deep_compare` raises XPTY0004 for a boolean against a number -/
+same type (numeric, xs:boolean or xs:string); `deep_compare` raises XPTY0004 otherwise -/
 def keysUniform : List (List Int) → Bool
   | [] => true
-  | k :: ks => ks.all (fun k' => (k.zip k').all fun p => p.1 % 2 == p.2 % 2) && keysUniform ks
+  | k :: ks => ks.all (fun k' => ((shapeOf k).zip (shapeOf k')).all fun p => p.1 == p.2) && keysUniform ks
 
 /-- insert an item in front of the first item whose key is not smaller (so before all items
 with an equal key: used from the right end of the input this keeps equal keys in input order) -/
@@ -470,19 +515,19 @@ def specForEachPair (a : Nat) : Seq → Seq → SM Seq
   | _, _ => pure []
 
 /-- keys of all items, in order -/
-def specKeys (a : Nat) : Seq → SM (List (Item × List Int))
+def specKeys (ci : Bool) (a : Nat) : Seq → SM (List (Item × List Int))
   | [] => pure []
   | x :: xs => do
     let r ← callf a [[x]]
-    let k ← SM.lift (keyOf r)
-    let ks ← specKeys a xs
+    let k ← SM.lift (keyOf ci r)
+    let ks ← specKeys ci a xs
     pure ((x, k) :: ks)
 
 /-- F&O `fn:sort($input, (), $key)`: stable, ordered by key.  A sequence of fewer than two items
 is returned as it is (the key function need not be called). -/
-def specSort (a : Nat) (xs : Seq) : SM Seq :=
+def specSort (ci : Bool) (a : Nat) (xs : Seq) : SM Seq :=
   if xs.length < 2 then pure xs else do
-    let ks ← specKeys callf a xs
+    let ks ← specKeys callf ci a xs
     if keysUniform (ks.map (·.2)) then pure ((sortSpec ks).map (·.1)) else SM.throw .XPTY0004
 
 end HOF
@@ -590,6 +635,10 @@ def specStep (e : Expr) (c : SCtx) : SM Seq :=
   | .lit n => pure [.int n]
   | .dlit n => pure [.dec n]
   | .elit n => pure [.dbl n]
+  | .slit cs => pure [.str cs]
+  | .nanlit => pure [.nan]
+  | .inflit p => pure [.inf p]
+  | .negzlit => pure [.negz]
   | .inst t e => do
     let v ← ev e c
     -- `e instance of xs:T`: exactly one item, of that type
@@ -681,10 +730,10 @@ def specStep (e : Expr) (c : SCtx) : SM Seq :=
     if xs.isEmpty then pure [] else do
       let ys ← ev s2 c
       specForEachPair (specCall ev) a xs ys
-  | .sortK s f => do
+  | .sortK ci s f => do
     let a ← specFunArgN ev c f 1
     let xs ← ev s c
-    specSort (specCall ev) a xs
+    specSort (specCall ev) ci a xs
   | .apply f ms => do
     let a ← specFunArg ev c f
     let vals ← specList ev c ms
